@@ -1,2 +1,4 @@
+(* compiled only by the failing-input search of C01: the code points on which implementation tables and specification differ *)
 Require Import SpecC01. From Coq Require Import NArith List.
-Eval vm_compute in (bad_points 0x110000 ok).
+Eval vm_compute in (bad_points 0x10000 ok).
+Eval vm_compute in (bad_points 0x10000 ok_ts).
